@@ -151,6 +151,16 @@ CLAIMED = {
         note='trusted: the tracking wrappers around createResource (documented override point) and urlopen; the '
              'fault spaces are finite and enumerated exhaustively through the solver; real file I/O is concrete',
         ref='DESIGN.md section 7 C19'),
+    'C10': dict(
+        text='For the enumerated schema-document templates (element sequences with symbolic attribute values: '
+             'names, attribute, required, type, extends, implements, default keys, datatype / keytype / handler '
+             'names, stray text) z3 shows on every path of the real SAX handler and info constructors that the '
+             'document is accepted exactly when a reference model of the static rules accepts it, and that a '
+             'rejection is a SchemaError raised while loading; every replayed witness is rendered to XML and '
+             'loaded through expat.',
+        note='trusted: z3, engine models (replayed per path through loadSchemaFile), vf/oracles/schemarules.py; '
+             'XML well-formedness, <import>, dotted datatype names are outside the claim',
+        ref='DESIGN.md section 7 C10'),
 }
 
 NOT_YET = 'harness not built yet in this revision (see DESIGN.md section 7 for the plan)'
